@@ -229,16 +229,38 @@ def rawAdvance (rl : RawLock) (after : State) (op : Op) : RawLock :=
   | some p => { pair := p, ok := rl.ok && rawAgrees p.a0 after.a0 && rawAgrees p.a1 after.a1 }
   | none => { rl with ok := false }
 
+/-! A third element type: `List<Tagged>` with `Tagged = {int k; int tag}`, `operator<` comparing `k` only.  Equal keys
+    are distinguishable by their tags, so the final arrangement after `sort()` shows the exact sequence of value
+    swaps: the implementation's line is compared with the generic `sortVals` run with `ltKey`. -/
+
+def obsT (tl : List (Int × Int)) : String :=
+  s!"t {tl.length} {csv (fun (p : Int × Int) => s!"{p.1}:{p.2}") tl}"
+
+/-- ops on the tagged list: `tappend k tag`, `tprepend k tag`, `tsort`, `tclear` -/
+def stepTagged (tl : List (Int × Int)) (ws : List String) : Option (List (Int × Int)) :=
+  match ws with
+  | ["tappend", k, t] => do pure (tl ++ [((← k.toInt?), (← t.toInt?))])
+  | ["tprepend", k, t] => do pure (((← k.toInt?), (← t.toInt?)) :: tl)
+  | ["tsort"] => sortVals ltKey tl
+  | ["tclear"] => some []
+  | _ => none
+
 def allShown : List Show := [.l 0, .l 1, .p 0, .p 1, .a 0, .a 1]
 
 def line (s : State) (ret : Option Int) (n d : Nat) (sh : List Show) : String :=
   let r := match ret with | some x => toString x | none => "-"
   " | ".intercalate (s!"r={r} n={n} d={d}" :: sh.map (showOne s))
 
-def stepLine (stp : State × PtrPair × RawLock) (ws : List String) : (State × PtrPair × RawLock) × String :=
-  let (st, pp, rl) := stp
+def stepLine (stp : State × PtrPair × RawLock × List (Int × Int)) (ws : List String) :
+    (State × PtrPair × RawLock × List (Int × Int)) × String :=
+  let (st, pp, rl, tl) := stp
+  if (ws.headD "").startsWith "t" then
+    match stepTagged tl ws with
+    | some tl' => ((st, pp, rl, tl'), obsT tl')
+    | none => (stp, "bad-op")
+  else
   match ws with
-  | ["reset"] => (({}, {}, {}), line {} none 0 0 allShown)
+  | ["reset"] => (({}, {}, {}, []), line {} none 0 0 allShown)
   | ["dump"] => (stp, line st none 0 0 allShown ++ (if pp.ok then "" else " ptr-diverges") ++ (if rl.ok then "" else " raw-diverges"))
   | _ =>
     match parseOp ws with
@@ -248,10 +270,10 @@ def stepLine (stp : State × PtrPair × RawLock) (ws : List String) : (State × 
       | some r =>
         let pp' := ptrAdvance pp st r.st op
         let rl' := rawAdvance rl r.st op
-        ((r.st, pp', rl'), line r.st r.ret r.allocs r.frees (touched op) ++ (if pp'.ok then "" else " ptr-diverges") ++
+        ((r.st, pp', rl', tl), line r.st r.ret r.allocs r.frees (touched op) ++ (if pp'.ok then "" else " ptr-diverges") ++
           (if rl'.ok then "" else " raw-diverges"))
       | none => (stp, "bad-op")
 
 end Nstd.Seq
 
-def main : IO Unit := Nstd.Common.ioLoop (({}, {}, {}) : Nstd.Seq.State × Nstd.Seq.PtrPair × Nstd.Seq.RawLock) Nstd.Seq.stepLine
+def main : IO Unit := Nstd.Common.ioLoop (({}, {}, {}, []) : Nstd.Seq.State × Nstd.Seq.PtrPair × Nstd.Seq.RawLock × List (Int × Int)) Nstd.Seq.stepLine
